@@ -132,7 +132,37 @@ pub fn owned<S: Src>(s: &mut S) {
     }
 }
 
+/// Owned items with concrete lengths (value `VL`, prefix `PL` bytes) and symbolic contents and
+/// type: the symbolic-length instance `owned` is thorough-only (copies of symbolic length).
+pub fn owned_fixed<S: Src, const VL: usize, const PL: usize, const INTO: bool>(s: &mut S) {
+    let mut it = common::shapes::draw_item::<S, 3>(s);
+    it.value.len = VL;
+    it.prefix.len = PL;
+    let ssrc = s.u32();
+    let chunk = if INTO {
+        SdesChunk::builder(ssrc).add_item(it.builder().into_owned())
+    } else {
+        SdesChunk::builder(ssrc).add_item_owned(it.builder())
+    };
+    let b = Sdes::builder().add_chunk(chunk);
+    let mut buf = [0xA5u8; 32];
+    let r = b.write_into(&mut buf);
+    forget(b);
+    let mut done = false;
+    if let Ok(n) = r {
+        let p = Sdes::parse(&buf[..n]).expect("own parser rejects the built SDES");
+        let pc = p.chunks().next().expect("chunk missing");
+        assert!(pc.ssrc() == ssrc && pc.items().count() == 1);
+        same_item(s, pc.items().next().unwrap(), &it);
+        done = it.is_priv();
+        forget(p);
+    }
+    vcover!(done, "owned PRIV item");
+}
+
 common::register! {
+    q_owned_12 = owned_fixed::<_, 1, 2, false> => 2,
+    q_into_owned_21 = owned_fixed::<_, 2, 1, true> => 2,
     q_0 = s_0 => 2,
     q_1x0 = s_1x0 => 2,
     q_1x1 = s_1x1 => 2,
